@@ -75,6 +75,42 @@ def gen(dom, depth, max_width=3):
     yield from rec(Id(dom), 0)
 
 
+def _repaired_add_bit(self, unit, offset=None):
+    """tk.Circuit.add_bit with the known defect F23 repaired (the new input wire of post_processing is inserted at the
+    new bit's register position instead of last); used only to attribute a failure to F23 exactly"""
+    from pytket.circuit import Circuit as _TkCircuit
+    if offset is not None:
+        index = unit.index[0] - len([i for i in self.post_selection if i < unit.index[0]])
+        n_inputs = len(self.post_processing.dom)
+        self.post_processing = Id(bit ** index) @ Id.swap(bit, bit ** (n_inputs - index)) >> self.post_processing @ Id(bit)
+        self.post_processing >>= Id(bit ** offset) @ Id.swap(self.post_processing.cod[offset:-1], bit)
+    _TkCircuit.add_bit(self, unit)
+
+
+def bits_left_of_live_bit(c):
+    """a (non-daggered) Bits box is prepared while another classical bit is live: prepare_bits may then insert the new
+    register bit before an existing one (to the left of a live bit, or after out-of-order measurements)"""
+    for left, box, right in c.layers:
+        if isinstance(box, Bits) and not box.is_dagger and (left.count(bit) or right.count(bit)):
+            return True
+    return False
+
+
+def only_F23(c, want):
+    """the export agrees with local evaluation once add_bit alone is replaced by its repaired version"""
+    saved = tk.Circuit.add_bit
+    tk.Circuit.add_bit = _repaired_add_bit
+    try:
+        got = numpy.array(c.eval(backend=ExactBackend(), normalize=False).array, dtype=complex)
+        back = numpy.array(tk.from_tk(c.to_tk()).eval(mixed=True).array, dtype=complex)
+        return got.size == want.size and numpy.allclose(got.reshape(want.shape), want, atol=1e-9) \
+            and back.size == want.size and numpy.allclose(back.reshape(want.shape), want, atol=1e-9)
+    except Exception:
+        return False
+    finally:
+        tk.Circuit.add_bit = saved
+
+
 def check(rep, c):
     r = repr(c)
     rep.case(r, nontrivial=len(c) > 0)
@@ -105,7 +141,11 @@ def check(rep, c):
                  '(%d entries instead of %d)' % (got.size, want.size), r)
         return
     if got.size != want.size or not numpy.allclose(got.reshape(want.shape), want, atol=1e-9):
-        rep.fail('C13:export.distribution', 'distribution of the exported tket circuit differs from local evaluation: '
+        # known finding F23: attributed only when the circuit prepares Bits left of a live bit AND the disagreement
+        # disappears with add_bit alone repaired; anything else is reported under the generic key
+        key = 'C13:export.bits_left_of_live_bit' if bits_left_of_live_bit(c) and only_F23(c, want) \
+            else 'C13:export.distribution'
+        rep.fail(key, 'distribution of the exported tket circuit differs from local evaluation: '
                  '%s vs %s' % (numpy.round(got.flatten(), 4)[:8], numpy.round(want.flatten(), 4)[:8]), r)
         return
     # counts through the backend
@@ -188,6 +228,9 @@ def run(tier, seed=0, shard=(0, 1)):
                             'bit swaps scalar(.5), width <= 3' % depth,
                   'import': 'all pytket circuits with <= %d commands over H X Y Z S T Rx Rz CX CZ SWAP CRz Measure on 1-3 '
                             'qubits (sampled 1/5 in the quick tier)' % depth,
+                  'classical': '3 measured qubits (6 ways of measuring, incl. Measure(3)) then <= 2 classical steps among bit '
+                               'swaps, NOT on one bit, Bits(0) at every offset (quick: a third of the 2-step sequences); '
+                               'mixed and pure scalars at both ends',
                   'simulator': 'rtc/tksim.py exact branching state-vector simulation'})
     idx = 0
     for dom in (qubit, qubit @ qubit, circuit.Ty(), bit):
@@ -225,6 +268,70 @@ def run(tier, seed=0, shard=(0, 1)):
                             c = c >> gates.SWAP @ Id(c.cod[2:])
                         c = c >> tail @ Id(c.cod[2:])
                         check(rep, c)
+    # classical bookkeeping: all qubits measured (by one wide Measure box or several), then up to two classical steps
+    # among bit swaps, NOT on one bit, a fresh Bits(0) at every offset; distinct marginals tell the bits apart
+    NOT = ClassicalGate('NOT', 1, 1, [0, 1, 1, 0])
+    base = Ket(0, 0, 0) >> Rx(0.3) @ Rx(0.2) @ Rx(0.7)
+    stages = [Measure(3), Measure(2) @ Measure(), Measure() @ Measure(2), Measure() @ Measure() @ Measure(),
+              Id(1) @ Measure(2) >> Measure() @ Id(bit ** 2), Measure(2) @ Id(1) >> Id(bit ** 2) @ Measure()]
+
+    def classical_steps(ty):
+        n = len(ty)
+        out = [Id(bit ** k) @ circuit.Swap(bit, bit) @ Id(bit ** (n - k - 2)) for k in range(n - 1)]
+        out += [Id(bit ** k) @ NOT @ Id(bit ** (n - k - 1)) for k in range(n)]
+        if n < 4:
+            out += [Id(bit ** k) @ Bits(0) @ Id(bit ** (n - k)) for k in range(n + 1)]
+        return out
+    for st in stages:
+        m = base >> st
+        seqs = [m]
+        for s1 in classical_steps(m.cod):
+            seqs.append(m >> s1)
+            for s2 in classical_steps(s1.cod):
+                if tier == 'thorough' or (len(seqs) % 3 == 0):
+                    seqs.append(m >> s1 >> s2)
+                else:
+                    seqs.append(None)
+        for c in seqs:
+            idx += 1
+            if c is None or idx % shard[1] != shard[0]:
+                continue
+            check(rep, c)
+    # scalars of both kinds at both ends: amplitudes (recorded as their squared modulus) and weights (recorded as is,
+    # e.g. the negative weights of parameter-shift gradients)
+    for sc in (scalar(0.5, is_mixed=True), scalar(-1, is_mixed=True), scalar(2.5, is_mixed=True), scalar(0.5j), scalar(-2)):
+        for c in (sc @ Ket(0) >> Rx(0.3) >> Measure(), Ket(0) >> Rx(0.3) >> Measure() @ sc,
+                  sc @ Ket(0, 0) >> gates.H @ Rx(0.3) >> gates.CX >> Measure() @ Discard() >> sc @ Id(bit)):
+            idx += 1
+            if idx % shard[1] != shard[0]:
+                continue
+            check(rep, c)
+    # batches: several circuits with different scalars / post-selections processed by one backend call
+    batch = [scalar(0.5, is_mixed=True) @ Ket(0) >> Rx(0.3) >> Measure(), Ket(0) >> Rx(0.2) >> Measure(),
+             scalar(2) @ Ket(0, 0) >> gates.H @ Rx(0.3) >> gates.CX >> Measure() @ Bra(0),
+             Ket(0, 0) >> gates.H @ Rx(0.3) >> Measure() @ Measure() >> circuit.Swap(bit, bit)]
+    for i, j in itertools.permutations(range(len(batch)), 2):
+        idx += 1
+        if idx % shard[1] != shard[0]:
+            continue
+        r = 'batch: %r ; %r' % (batch[i], batch[j])
+        rep.case(r)
+        try:
+            got = batch[i].eval(batch[j], backend=ExactBackend(), normalize=False)
+            cnt = batch[i].get_counts(batch[j], backend=ExactBackend(), normalize=False)
+        except Exception as e:
+            rep.fail('C13:batch.raises', 'batch evaluation raised %s: %s' % (type(e).__name__, e), r)
+            continue
+        for k, g, cn in zip((i, j), got, cnt):
+            want = local_distribution(batch[k])
+            g = numpy.array(g.array, dtype=complex)
+            if g.size != want.size or not numpy.allclose(g.reshape(want.shape), want, atol=1e-9):
+                rep.fail('C13:batch.eval', 'circuit %d of the batch evaluates to %s through the backend, locally to %s'
+                         % ((i, j).index(k), numpy.round(g.flatten().real, 4), numpy.round(want.flatten().real, 4)), r)
+            probs = want.real.reshape((2,) * len(want.shape))
+            if not len(batch[k].to_tk().post_processing) and any(abs(probs[b] - p) > 1e-9 for b, p in cn.items()):
+                rep.fail('C13:batch.get_counts', 'counts of circuit %d of the batch disagree with local evaluation: %r'
+                         % ((i, j).index(k), cn), r)
     for combo, tkc in tket_circuits(min(depth, 2)):
         idx += 1
         if idx % shard[1] != shard[0] or (tier == 'quick' and (idx // shard[1]) % 5):
